@@ -244,7 +244,7 @@ def run(ctx):
   pipeline.mods()
   pipeline.enable_library_memo()
   thorough = ctx.tier == 'thorough'
-  n = 60 if thorough else 6
+  n = 36 if thorough else 6
   for i in range(n):
     run_case(ctx, ctx.rng.randrange(1 << 48), i)
 
